@@ -47,9 +47,12 @@ def term_z3(p):
     return z3.Sum(terms)
 
 
-def side_constraints(atom_ids, free=()):
-    """Defining constraints for derived atoms reachable from atom_ids (atoms in `free` only keep their sign)."""
+def side_constraints(atom_ids, free=(), congruence=False):
+    """Defining constraints for derived atoms reachable from atom_ids (atoms in `free` only keep their sign).
+    With congruence=True, opaque atoms of the same function symbol get the functional-consistency axiom
+    args equal => values equal (Ackermann expansion over the reachable applications)."""
     out = []
+    apps = {}
     seen = set()
     todo = list(atom_ids)
     while todo:
@@ -101,12 +104,21 @@ def side_constraints(atom_ids, free=()):
                     out.append(lhs == rhs)
                     out.append(t >= 0)
                     out.append(b >= 0)
+            if congruence and fname not in ('sin', 'cos', 'pow'):
+                apps.setdefault((fname, len(args)), []).append((i, args))
             ex = W.extra[i]
             for con in ex.get('constraints', ()):  # harness-supplied contracts on this atom
                 out.append(con)
             for a in args:
                 if isinstance(a, Sym):
                     todo.extend(a.atoms())
+    for group in apps.values():
+        for x in range(len(group)):
+            for y in range(x + 1, len(group)):
+                (i, ai), (j, aj) = group[x], group[y]
+                eqs = [term_z3(u) == term_z3(v) for u, v in zip(ai, aj) if not (isinstance(u, Sym) and isinstance(v, Sym) and u.key() == v.key())]
+                if all(isinstance(u, Sym) and isinstance(v, Sym) for u, v in zip(ai, aj)):
+                    out.append(z3.Implies(z3.And(*eqs) if eqs else z3.BoolVal(True), zvar(i) == zvar(j)))
     return out
 
 
@@ -311,11 +323,12 @@ class PathAbort(BaseException):
 
 
 class Path:
-    __slots__ = ('pc', 'decisions', 'value', 'exc', 'notes', 'domain')
+    __slots__ = ('pc', 'decisions', 'value', 'exc', 'notes', 'domain', 'qids')
 
     def __init__(self):
         self.pc = []
         self.decisions = []
+        self.qids = []
         self.value = None
         self.exc = None
         self.notes = []
@@ -350,6 +363,8 @@ class Explorer:
         self.solver_s = 0.0
         self.unknown = 0
         self.capped = False
+        self.nondeterministic = 0
+        self.prefix_q = []
         self.generic_notes = 0
         self._models = []
         self.path = None
@@ -357,6 +372,7 @@ class Explorer:
         self.verdicts = {'sat': 0, 'unsat': 0, 'unknown': 0}
         self.abstract_basis = []  # [(Sym P_k, z3 Real T_k)]: sub-polynomials replaced by fresh non-negative reals
         self.abstract_atoms = set()   # atoms occurring in the basis (a comparison mentioning them must decompose)
+        self.congruence = False   # functional-consistency axioms for opaque atoms (opt-in)
         self.free_atoms = set()   # derived atoms whose defining constraint is dropped (over-approximation)
         self.n_abstracted = 0
         self.n_abstract_failed = 0
@@ -527,7 +543,7 @@ class Explorer:
     def check(self, conds, atoms=()):
         """Satisfiability of pre ∧ conds (+ side constraints of the atoms involved)."""
         all_atoms = set(atoms) | self.pre_atoms
-        sides = side_constraints(all_atoms, self.free_atoms)
+        sides = side_constraints(all_atoms, self.free_atoms, self.congruence)
         s = z3.Solver()
         s.set('timeout', self.timeout)
         s.add(*self.pre)
@@ -575,13 +591,24 @@ class Explorer:
             return iv
         if k < len(self.prefix):
             v = self.prefix[k]
+            # re-execution must ask the same questions in the same order, or the forced answers are meaningless
+            if k < len(self.prefix_q) and self.prefix_q[k] != sb.z.get_id():
+                self.nondeterministic += 1
+                self.capped = True
+                raise PathAbort('nondeterministic re-execution: decision %d asks a different question than when the path was forked' % k)
         else:
             atoms = p.atoms() | sb.atoms
             pcz = p.conds()
             t_ok = f_ok = None
             # cheap: reuse a cached model that satisfies the path condition
+            sides_now = None
             for mdl in reversed(self._models[-6:]):
                 if self._model_says(mdl, pcz):
+                    # the cached model must also respect the defining/contract constraints of atoms it has never seen
+                    if sides_now is None:
+                        sides_now = list(self.pre) + side_constraints(set(atoms) | self.pre_atoms, self.free_atoms, self.congruence)
+                    if not self._model_says(mdl, sides_now):
+                        continue
                     if z3.is_true(mdl.eval(sb.z, model_completion=True)):
                         t_ok = 'sat'
                     else:
@@ -599,7 +626,7 @@ class Explorer:
             if 'unknown' in (t_ok, f_ok):
                 self.unknown += 1
             if t_ok == 'sat' and f_ok == 'sat':
-                self.work.append(p.decisions + [False])
+                self.work.append((p.decisions + [False], p.qids + [sb.z.get_id()]))
                 v = True
             elif t_ok == 'sat':
                 v = True
@@ -610,13 +637,14 @@ class Explorer:
             else:
                 raise PathAbort('infeasible path (both sides unsat)')
         p.decisions.append(v)
+        p.qids.append(sb.z.get_id())
         p.pc.append(sb if v else ~sb)
         return v
 
     # ------------------------------------------------------------------ driver
     def run(self, fn, catch=Exception):
         self.paths = []
-        self.work = [[]]
+        self.work = [([], [])]
         t0 = time.time()
         prev = _CUR[0]
         _CUR[0] = self
@@ -626,7 +654,7 @@ class Explorer:
                         self.time_budget_s and time.time() - t0 > self.time_budget_s):
                     self.capped = True
                     break
-                self.prefix = self.work.pop()
+                self.prefix, self.prefix_q = self.work.pop()
                 self.path = p = Path()
                 try:
                     p.value = fn()
